@@ -10,7 +10,7 @@ library's load/set -> kernel -> store; Trace_Lane validates every lane over the 
 import json
 import vlib, lanelib
 from vlib import Check, workdir
-APA = ['InvToCanon', 'InvAdd', 'InvAddASc', 'InvAddSBSmall', 'InvAddBSmall', 'InvSub', 'InvSubSBSmall', 'InvMult128P', 'InvMult72P', 'InvSquare128P', 'InvReduce128', 'InvReduce96']
+APA = ['InvToCanon', 'InvAdd', 'InvAddASc', 'InvAddSBSmall', 'InvAddBSmall', 'InvSub', 'InvSubSBSmall', 'InvMult128P', 'InvMult72P', 'InvSquare128P', 'InvReduce128', 'InvReduce96', 'InvMult8_3', 'InvMult8_255']
 
 
 def run(tier, seed, replay=None):
@@ -21,7 +21,7 @@ def run(tier, seed, replay=None):
     if replay:
         cases = [lanelib.case_from_json(c) for c in json.load(open(replay))['case']['cases']]
     else:
-        leads = lanelib.model_lane(ck, wd, tier, APA)
+        leads = lanelib.model_lane(ck, wd, tier, APA + (['InvMult_3'] if tier == 'thorough' else []))
         cases = lanelib.lead_cases(lanelib.LANE2, leads) + lanelib.lane_cases(lanelib.LANE2, seed, tier)
     lanelib.replay(ck, wd, 'avx2', cases, 'AVX2 lane kernels (%d register groups, 17 kernels)' % len(cases),
                    lambda c, r: 'kernel %s lanes a=%s b=%s' % (c[1], ' '.join('%x' % p[0] for p in c[2]), ' '.join('%x' % p[1] for p in c[2])))
